@@ -3,6 +3,10 @@
 import json, os
 root = os.path.dirname(os.path.dirname(os.path.abspath(__file__)))
 CHECKS = [
+ dict(id="C12", level="model_checking", engine="gen+ref", design="§5 C12",
+      technique="bounded exhaustive enumeration of import graphs x import sites against the executable reference model; every model trace is replayed on the implementation under 8 configurations",
+      text="Every directed graph on 2 (thorough 3) source modules incl. self-imports and all cycles, with main importing two modules through every pair of 9 import sites (top level, function called 0/1/2 times, loop, false/true condition, Go callback on a child VM pooled and unpooled, closure returned by another module). The reference interpreter gives body log, shared state and value; the VM must agree with optimizer on/off, plain and after encode/decode; every cyclic graph and unknown module must be a compile error; builtin-module values (10 kinds of mutation) must be invisible to a second VM, to the host and to a later compile.",
+      note="Trusted: internal/ref. State is observed through closures only (whether a returned map is copied when cached is not specified)."),
  dict(id="C16", level="model_checking", engine="gen (constructed expectation)", design="§5 C16",
       technique="bounded exhaustive program enumeration against a constructed model: the generator knows the line of every call statement and of the failing statement; every program is run under all configurations and its stack trace compared with the model",
       text="Call chains of depth 0..4 (thorough 0..6) x 6 failure kinds x 4 call forms x 4 layouts x 3 statement positions x 4 definition styles (top level, nested in the caller, imported source module, failure while the module body runs), plus failing statements at the very first byte of main and of a module; thorough also mixes call forms per level. Each program runs under optimizer on/off x plain/encode-decode x k = 0, 1, 3 prepended blank lines; StackTrace() (outermost first) must equal the constructed line list shifted by k, every position must name its file and lie inside it.",
